@@ -40,6 +40,16 @@ def nrefs(it, b):
     return len(it.getattr(b, 'refs').items)
 
 
+def chain_cells(it, c):
+    out = []
+    while True:
+        out.append(c)
+        refs = it.getattr(c, 'refs').items
+        if not refs or len(out) > 64:
+            return out
+        c = refs[-1]
+
+
 def store_prims(it):
     """name -> (k bits added, n refs added, apply(builder))"""
     hp = Sym('hp', ty='bytes', n=32, key=('hp',))
@@ -243,6 +253,36 @@ def check(run):
                     run.fail('D2', f'Builder.{op}', f'{st}: accepted, builder now holds {nbits(it, b)} bits', wb, witness=dict(r=r, fill=fill))
                 elif ok and (nrefs(it, b) != r or nbits(it, b) != fill + 1):
                     run.fail('D2', f'Builder.{op}', f'{st}: builder holds {nrefs(it, b)} refs / {nbits(it, b)} bits, expected {r} / {fill + 1}', wb)
+                else:
+                    run.ok('D2', st)
+    # snake-chained byte strings: a value longer than the room left needs one reference for its continuation (and the continuation cells are
+    # within capacity themselves): accepted iff r < 4; a value that fits inline needs none
+    for r in range(0, 5):
+        for fill, nbytes in ((0, 127), (0, 128), (0, 400), (1000, 2), (1000, 3), (1016, 1), (1023, 1)):
+            for op, arg in (('store_snake_bytes', lambda n_: Sym('snake', ty='bytes', n=n_, key=('snake', n_))), ('store_snake_string', lambda n_: K('s' * n_))):
+                it = Interp(prog)
+                b = filled(it, fill, r)
+                room = (1023 - fill) // 8
+                needs_ref = nbytes > room
+                try:
+                    call(it, b, op, arg(nbytes))
+                    ok = True
+                except RaiseEx as e:
+                    ok, exc = False, e
+                except Fail as e:
+                    raise AnalysisError(f'{op}({nbytes} bytes) at r={r}, fill={fill}: {e}')
+                run.evaluations += 1
+                fits = not needs_ref or r < 4
+                st = f'{op}({nbytes} bytes)[r={r},fill={fill}]'
+                if ok and not fits:
+                    run.fail('D2', f'Builder.{op}', f'{st}: accepted, builder now holds {nrefs(it, b)} references (a continuation cell was attached to a builder that had 4)', wb, witness=dict(r=r, fill=fill))
+                elif not ok and fits:
+                    run.fail('D2', f'Builder.{op}', f'{st}: refused ({exc}) although {"the value fits inline" if not needs_ref else f"{r}+1 <= 4 references"}', wb, witness=dict(r=r, fill=fill))
+                elif ok and (nrefs(it, b) != r + (1 if needs_ref else 0) or nbits(it, b) > 1023):
+                    run.fail('D2', f'Builder.{op}', f'{st}: builder holds {nrefs(it, b)} refs / {nbits(it, b)} bits, expected {r + (1 if needs_ref else 0)} refs and at most 1023 bits', wb)
+                elif ok and needs_ref and any(len(it.getattr(c_, 'refs').items) > 4 or len(it.getattr(c_, 'bits').native if isinstance(it.getattr(c_, 'bits'), Inst) else it.getattr(c_, 'bits')) > 1023
+                                              for c_ in chain_cells(it, it.getattr(b, 'refs').items[-1])):
+                    run.fail('D2', f'Builder.{op}', f'{st}: a continuation cell of the chain is over capacity', wb)
                 else:
                     run.ok('D2', st)
     # a present Maybe ^Cell needs one bit as well as one reference
